@@ -119,3 +119,34 @@ TRUSTED = [
     "contract of _materialize (None -> zeros of the input's shape) is applied at its call sites",
 ]
 ASSUMPTIONS = ["C01: precondition — `tensors` non-empty, duplicate-free, at least one scalar in total; every input expects grad"]
+
+
+# ----------------------------------------------------------------------------- shared with C07 / C13 / C20
+
+
+def plumbing_check(prefix):
+    """backward(): the chunk size and the retain_graph flag of the caller reach the (single) Jac unchanged, and Jac is
+    the only differentiating transform of the pipeline.  Together with the proved ghost contract of
+    Jac._differentiate (C15.jac.ghost.*: ceil(m/k) sweeps of at most k rows, all but the last retaining the graph, the
+    last with Jac.retain_graph, vmap only for chunks of more than one row) this gives C07 / C13 for backward()."""
+    def fn(H):
+        def body(cx):
+            it = H.interp(cx, loop_specs=A.LOOPS, overrides=A.SUMMARIES)
+            heap, T, L, chunk, rg, agg, offT = setup(cx, it, H)
+            kind, out = call_catch(lambda: it.call(H.repo.get(f"{AJ}.backward.backward"), [T, agg, L, rg, chunk]))
+            if kind != "return":
+                return
+            jc = [e for e in cx.events if e[0] == "jac_call"]
+            sw = [e for e in cx.events if e[0] == "sweep"]
+            S = P.set_from_seq(it, L)
+            nonempty = (S.seq(cx).length > 0) if isinstance(S, V.SymSet) else z3.BoolVal(False)
+            cx.oblige(f"{prefix}.backward.single_jac", z3.And(len(jc) <= 1, len(sw) == 0, z3.Implies(nonempty, len(jc) == 1)))
+            for e in jc:
+                c = e[1]["chunk"]
+                cx.oblige(f"{prefix}.backward.chunk_size_reaches_jac", z3.And(lift(c.is_none) == chunk.is_none,
+                                                                              z3.Implies(z3.Not(chunk.is_none), lift(c.value) == chunk.value)))
+                cx.oblige(f"{prefix}.backward.retain_graph_reaches_jac", lift(e[1]["retain"]) == rg)
+                cx.oblige(f"{prefix}.backward.no_create_graph", e[1]["create_graph"] is False)
+                cx.oblige(f"{prefix}.backward.rows_are_all_output_scalars", lift(e[1]["rows"]) == offT.total())
+        H.explore(body, max_paths=2000)
+    return Check("backward.plumbing", FUNCS, fn, replay_keys=[prefix + "."])
